@@ -413,12 +413,6 @@ theorem jsonUnescape_jsonStr (s : Bytes) : jsonUnescape (jsonStr s) = some s := 
   rw [scanJson_jsonStr]
   simp
 
-/-- without `--abs-link-prefix` the `| safe` href is a constant that a parser reads back as such -/
-theorem scanHtmlAttr_parentLink_none (parent rest : Bytes) :
-    scanHtmlAttr (fileParentLink none parent ++ 34 :: rest)
-      = some (fileParentLink none parent, rest) := by
-  simp [fileParentLink, indexHtml, scanHtmlAttr, splitAt1, unescapeEnt, dstep]
-
 theorem startsWith_self_append (p xs : Bytes) : startsWith (p ++ xs) p = true := by
   induction p with
   | nil => cases xs <;> simp [startsWith]
@@ -451,5 +445,119 @@ theorem hasScheme_false_of_no_colon (xs : Bytes) (h : 58 ∉ xs) : hasScheme xs 
   cases hh : hasScheme xs with
   | false => rfl
   | true => exact absurd (hasScheme_mem xs hh) h
+
+theorem hasScheme_cons_space (xs : Bytes) : hasScheme (32 :: xs) = hasScheme xs := by
+  simp [hasScheme, List.dropWhile]
+
+/-- a `/` right after `p` fixes the answer: nothing behind it matters -/
+theorem schemeTail_append_slash (p x : Bytes) : schemeTail (p ++ 47 :: x) = schemeTail p := by
+  induction p with
+  | nil => simp [schemeTail, isSchemeChar, isAlpha]
+  | cons b p ih =>
+    simp only [List.cons_append, schemeTail]
+    split
+    · rfl
+    · split
+      · exact ih
+      · rfl
+
+theorem hasScheme_append_slash (p x : Bytes) : hasScheme (p ++ 47 :: x) = hasScheme p := by
+  induction p with
+  | nil => simp [hasScheme, List.dropWhile, isAlpha]
+  | cons b p ih =>
+    by_cases hb : b = 32
+    · subst hb
+      rw [List.cons_append, hasScheme_cons_space, hasScheme_cons_space, ih]
+    · have h1 : (b == 32) = false := by simpa using hb
+      simp only [hasScheme, List.cons_append, List.dropWhile, h1, schemeTail_append_slash]
+
+/-- once `p` contains a `/` or a `:`, what follows `p` cannot change whether the reference has a
+scheme -/
+theorem schemeTail_append_of_mem (p x : Bytes) (h : 47 ∈ p ∨ 58 ∈ p) :
+    schemeTail (p ++ x) = schemeTail p := by
+  induction p with
+  | nil => simp at h
+  | cons b p ih =>
+    simp only [List.cons_append, schemeTail]
+    split
+    · rfl
+    · rename_i h58
+      split
+      · rename_i hsc
+        apply ih
+        rcases h with h | h
+        · rcases List.mem_cons.mp h with e | e
+          · subst e; simp [isSchemeChar, isAlpha] at hsc
+          · exact Or.inl e
+        · rcases List.mem_cons.mp h with e | e
+          · exact absurd e.symm h58
+          · exact Or.inr e
+      · rfl
+
+theorem hasScheme_append_of_mem (p x : Bytes) (h : 47 ∈ p ∨ 58 ∈ p) :
+    hasScheme (p ++ x) = hasScheme p := by
+  induction p with
+  | nil => simp at h
+  | cons b p ih =>
+    by_cases hb : b = 32
+    · subst hb
+      rw [List.cons_append, hasScheme_cons_space, hasScheme_cons_space]
+      apply ih
+      rcases h with h | h
+      · rcases List.mem_cons.mp h with e | e
+        · simp at e
+        · exact Or.inl e
+      · rcases List.mem_cons.mp h with e | e
+        · simp at e
+        · exact Or.inr e
+    · have h1 : (b == 32) = false := by simpa using hb
+      simp only [hasScheme, List.cons_append, List.dropWhile, h1]
+      by_cases ha : isAlpha b = true
+      · have hp : 47 ∈ p ∨ 58 ∈ p := by
+          rcases h with h | h
+          · rcases List.mem_cons.mp h with e | e
+            · subst e; simp [isAlpha] at ha
+            · exact Or.inl e
+          · rcases List.mem_cons.mp h with e | e
+            · subst e; simp [isAlpha] at ha
+            · exact Or.inr e
+        rw [schemeTail_append_of_mem p x hp]
+      · simp [ha]
+
+theorem hasScheme_dotSlash (x : Bytes) : hasScheme (dotSlash ++ x) = false := by
+  simp [hasScheme, dotSlash, List.dropWhile, isAlpha]
+
+theorem pathJoin_eq_append (a b : Bytes) (hb : b.head? ≠ some 47) : ∃ z, pathJoin a b = a ++ z := by
+  unfold pathJoin
+  simp only [hb, if_false]
+  split
+  · exact ⟨b, rfl⟩
+  · exact ⟨[47] ++ b, by simp⟩
+
+theorem indexHtml_rel : indexHtml.head? ≠ some 47 := by decide
+
+theorem ne_nil_of_mem_or {p : Bytes} (h : 47 ∈ p ∨ 58 ∈ p) : p ≠ [] := by
+  intro e; subst e; simp at h
+
+theorem hasScheme_dirRowUrl_some (p item : Bytes) (h : 47 ∈ p ∨ 58 ∈ p) :
+    hasScheme (dirRowUrl (some p) item) = hasScheme p := by
+  simp only [dirRowUrl, ne_nil_of_mem_or h, if_false, List.append_assoc]
+  exact hasScheme_append_of_mem p _ h
+
+theorem hasScheme_fileRowUrl_some (q item : Bytes) :
+    hasScheme (fileRowUrl (some q) item) = hasScheme q := by
+  unfold fileRowUrl
+  simp only
+  split
+  · subst_vars; simp [hasScheme_dotSlash, hasScheme]
+  · simp only [List.append_assoc, List.singleton_append]
+    exact hasScheme_append_slash q _
+
+theorem hasScheme_fileParentLink_some (p parent : Bytes) (h : 47 ∈ p ∨ 58 ∈ p)
+    (hrel : parent.head? ≠ some 47) : hasScheme (fileParentLink (some p) parent) = hasScheme p := by
+  obtain ⟨z, hz⟩ := pathJoin_eq_append p parent hrel
+  obtain ⟨y, hy⟩ := pathJoin_eq_append (p ++ z) indexHtml indexHtml_rel
+  simp only [fileParentLink, hz, hy, List.append_assoc]
+  exact hasScheme_append_of_mem p _ h
 
 end Grcov.Escape
